@@ -305,6 +305,13 @@ def targeted(pool):
             Doc(sym, 'svg', dict(dark=(1, 2, 3, 32), light='#abcdef40'), 'colour-edge'), Doc(sym, 'svg', dict(dark='#000f', light='#ffffffff'), 'colour-edge'),
             Doc(sym, 'svg', dict(dark='tan', light='#d2b48b'), 'colour-edge'), Doc(sym, 'svg', dict(dark='#ff0000', light='#ff0001'), 'colour-edge'),
             Doc(sym, 'svg', dict(light='aqua', draw_transparent=True), 'colour-edge')]
+    # call histories with colours that compare equal as Python values but mean different colours
+    # ((1.0, 0.0, 0.0) = full red as floats, (1, 0, 0) = 8 bit values; alpha 1.0 = opaque, alpha 1 = 1/255)
+    for kind in ('eps', 'pdf'):
+        out += [Doc(sym, kind, dict(dark=(1.0, 0.0, 0.0)), 'colour-history'), Doc(sym, kind, dict(dark=(1, 0, 0)), 'colour-history'),
+                Doc(sym, kind, dict(dark=(0, 1, 0), light=(1, 1, 1)), 'colour-history'), Doc(sym, kind, dict(dark=(0.0, 1.0, 0.0), light=(1.0, 1.0, 1.0)), 'colour-history')]
+    out += [Doc(sym, 'svg', dict(dark=(255, 0, 0, 1.0)), 'colour-history'), Doc(sym, 'svg', dict(dark=(255, 0, 0, 1)), 'colour-history'),
+            Doc(sym, 'svg', dict(dark=(255, 0, 0, 1), light=(0, 0, 255, 1.0)), 'colour-history'), Doc(sym, 'svg', dict(dark=(255, 0, 0, 1.0), light=(0, 0, 255, 1)), 'colour-history')]
     return out
 
 
